@@ -219,8 +219,9 @@ def _even(rc: RuleCtx):
     k1, k2 = body.index(l1), body.index(l2)
     fr = Frame(ev, fi, 0)
     fr.block(body[:k1], env, TRUE)
-    pr = env.get("points_reduced")
     want_pr = Vec([anf.opaque("take", c, reduced, array=True) for c in pts.items], "point")
+    prs = [v for v in env.values() if isinstance(v, Vec) and v.kind == "point" and veq(v, want_pr)]
+    pr = prs[0] if prs else None
     if not (isinstance(pr, Vec) and veq(pr, want_pr)):
         res.violation("A1", fi.module, fi.name, fi.node, "the retained points are not points[reduced]", _short(pr), "points[reduced]", construct="points_reduced")
         return
@@ -277,8 +278,10 @@ def _even(rc: RuleCtx):
     inner = [st for st in l2.body if isinstance(st, ast.For)]
     e4 = dict(e3)
     fr3.block(l2.body[:l2.body.index(inner[0])] if inner else [], e4, TRUE)
-    left, right = e4.get("left"), e4.get("right")
-    if step_ok and isinstance(left, Rat) and left.equals(_at(cands, j)) and isinstance(right, Rat) and right.equals(_at(cands, j + C(1))):
+    lefts = [v for v in e4.values() if isinstance(v, Rat) and v.equals(_at(cands, j))]
+    rights = [v for v in e4.values() if isinstance(v, Rat) and v.equals(_at(cands, j + C(1)))]
+    left, right = (lefts[0] if lefts else None), (rights[0] if rights else None)
+    if step_ok and isinstance(left, Rat) and isinstance(right, Rat):
         res.ok("A2", "postprocessing.add_points_even:pairs", "mapped candidates are processed as (left, right) pairs")
         _check_process(rc, fi, l2, e3, ev, left, right, e3, "add_points_even")
     else:
